@@ -21,7 +21,7 @@ WATCHDOG = {"quick": 900, "thorough": 3000}
 REQUIRED_CLASSES = {t: ["bins=1", "bins=2", "bins=101", "load_on_edge", "load_ulp_below_edge", "load_ulp_above_edge",
                         "load_zero", "load=+max", "load=-max", "load_above_max", "load_ulp_above_max", "negative_load",
                         "lookup:scalar", "lookup:series_plain_lut", "lookup:series_multi_lut", "branch:secondary",
-                        "law:neuber", "law:seegerbeste", "max_irrational", "per_point:load_ratio>100"]
+                        "law:neuber", "law:seegerbeste", "max_irrational", "per_point:load_ratio>100", "tables_of_similar_laws_alive"]
                     for t in ("quick", "thorough")}
 REQUIRED_MONITORS = ["contract:lookup==law_at_upper_edge", "contract:raises_above_max", "contract:no_raise_in_range",
                      "never_underestimates", "monotone", "less_than_one_class_off", "zero_load", "per_point_tables==single"]
@@ -299,6 +299,12 @@ def run_case(case, ctx):
                             bad = bad or {"node": nid, "col": c, "batch": a_[:6], "single": s_[:6]}
             ctx.check("per_point_tables==single", ok, observed=bad, detail={"factors": factors, "node_ids": node_ids})
         else:
+            # two tables alive at the same time that differ in one parameter of the wrapped law only (K_p, then K): what the
+            # second returns must be its own law's values (self-contained: the foils are built first)
+            m_ = case["mat"]
+            foils = [NAL.Binned(type(law)(m_["E"], m_["K"], m_["n"], case["kp"] + 0.75), mx, bins),
+                     NAL.Binned(type(law)(m_["E"], m_["K"] * 1.3, m_["n"], case["kp"]), mx, bins)]
+            ctx.tag("tables_of_similar_laws_alive")
             b = NAL.Binned(law, mx, bins)
             factors = np.array([1.0])
 
